@@ -41,6 +41,10 @@ type Config struct {
 	Split         int // number of vsplit partitions (0 = none)
 	MaxWallS      int
 	MaxSwitches   int
+	MaxPreempt    int  // bound on PREEMPTIVE context switches only (used when PreemptBound); forced switches are free
+	PreemptBound  bool
+	EagerStart    bool // a new thread runs to its first visible operation as soon as it is spawned (no scheduling choice)
+	StopFirst     bool // stop exploring at the first violation (concretisation harnesses)
 }
 
 func defaultConfig() Config {
@@ -175,6 +179,12 @@ func applyCfg(c *Config, kv map[string]string, tier string) error {
 			c.MaxWallS = n
 		case "maxswitches":
 			c.MaxSwitches = n
+		case "maxpreempt":
+			c.MaxPreempt, c.PreemptBound = n, true
+		case "eagerstart":
+			c.EagerStart = v == "1" || v == "true"
+		case "stopfirst":
+			c.StopFirst = v == "1" || v == "true"
 		case "bound", "tier", "use":
 		default:
 			if strings.HasPrefix(k, "b_") {
@@ -695,6 +705,10 @@ func (ex *Exec) reportViolationK(id, msg string, m Model, known string) {
 	if h.vioSeen[key] <= 3 {
 		h.res.Violations = append(h.res.Violations, v)
 	}
+	if h.cfg.StopFirst && !h.stopped {
+		h.stopped = true
+		h.cond.Broadcast()
+	}
 }
 
 // ---------------------------------------------------------------------------
@@ -966,6 +980,28 @@ func init() {
 		"vwait": func(ex *Exec, fn *ssa.Function, a []Value) (Value, bool) {
 			if ex.threads != nil {
 				ex.threads.yieldPoint(ex, "wait", true)
+			}
+			return nil, true
+		},
+		// vexitThread: the calling interpreted thread ends here, silently (a background loop the harness does not need)
+		"vexitThread": func(ex *Exec, fn *ssa.Function, a []Value) (Value, bool) {
+			if ex.threads != nil && ex.threads.cur != nil && ex.threads.running {
+				ex.stubsSeen["vexitThread: a background goroutine of the code under test was ended at its first sleep"] = true
+				panic(threadKill{})
+			}
+			return nil, true
+		},
+		// vblock: the calling thread is not scheduled again until another step has changed memory
+		"vblock": func(ex *Exec, fn *ssa.Function, a []Value) (Value, bool) {
+			if ex.threads != nil {
+				ex.threads.blockPoint(ex)
+			}
+			return nil, true
+		},
+		// vblockUntil(pred): the calling thread continues only when pred() holds
+		"vblockUntil": func(ex *Exec, fn *ssa.Function, a []Value) (Value, bool) {
+			if ex.threads != nil {
+				ex.threads.blockUntil(ex, a[0])
 			}
 			return nil, true
 		},
